@@ -167,7 +167,7 @@ fn noise_string(mut idx: usize, len: usize) -> String {
 pub fn run() -> i32 {
     let mut r = Report::new("C02");
     let thorough = r.thorough();
-    r.rule = "four exhaustive families, every case through compile + Rule::apply per word and through run / trace_changes / get_trace_string: (1) every rule of rulegen(n) x hand-shaped words (thorough: all 7.7 M rules of size 4, on eight words); (1d, thorough) every three-item context / exception of five fixed skeletons; (1c, quick) every two-item environment decoration of five fixed input/output skeletons; (2) every rule at token-edit distance 1 (delete, duplicate, replace by / insert each of 48 tokens) from a frozen corpus of documented, test-suite and example-project rules x 8 words; (3) every string of <= m chars over a 48-char alphabet as rule, word, deromaniser and romaniser; (4) over-large and odd numeric literals in every position that takes digits; (6) every feature / node / suprasegmental spelling and 13 near-names x 11 value forms (binary, alpha, inverted alpha, capital alpha, last Greek letter, malformed) x 12 slots (input, output, context, exception, syllable, structure, insertion, metathesis, both alias directions) and numeric forms x 5 slots; (7) three small grammars around constructs that keep state across a retry or a split: ellipsis inputs with a tail, syllables written in place of segments before further outputs, zero-width optionals with every count form; (5) every romaniser whose input is a sequence of 1..k elements over 11 element kinds (segments and matrices with length / stress modifiers, `$`) x 3 replacement kinds, and every deromaniser with such an output, on 10 words with long segments at syllable ends. Oracle: returns Ok or Err within the step budget 2 000 + 20 (|w|+1)(|r|+1); any panic or budget exhaustion is a violation. Non-trivial = returned Ok.".into();
+    r.rule = "four exhaustive families, every case through compile + Rule::apply per word and through run / trace_changes / get_trace_string: (1) every rule of rulegen(n) x hand-shaped words (thorough: all 7.7 M rules of size 4, on eight words); (1d, thorough) every three-item context / exception of five fixed skeletons; (1c, quick) every two-item environment decoration of five fixed input/output skeletons; (2) every rule at token-edit distance 1 (delete, duplicate, replace by / insert each of 48 tokens) from a frozen corpus of documented, test-suite and example-project rules x 8 words; (3) every string of <= m chars over a 48-char alphabet as rule, word, deromaniser and romaniser; (4) over-large and odd numeric literals in every position that takes digits; (6) every feature / node / suprasegmental spelling and 13 near-names x 11 value forms (binary, alpha, inverted alpha, capital alpha, last Greek letter, malformed) x 12 slots (input, output, context, exception, syllable, structure, insertion, metathesis, both alias directions) and numeric forms x 5 slots; (8) condensed rules with every combination of list lengths 1..4 for inputs / outputs and 0..4 for context / exception environments, as substitution and deletion; (7) three small grammars around constructs that keep state across a retry or a split: ellipsis inputs with a tail, syllables written in place of segments before further outputs, zero-width optionals with every count form; (5) every romaniser whose input is a sequence of 1..k elements over 11 element kinds (segments and matrices with length / stress modifiers, `$`) x 3 replacement kinds, and every deromaniser with such an output, on 10 words with long segments at syllable ends. Oracle: returns Ok or Err within the step budget 2 000 + 20 (|w|+1)(|r|+1); any panic or budget exhaustion is a violation. Non-trivial = returned Ok.".into();
     r.assumptions.push("release build semantics (debug_assert off), as shipped".into());
     r.assumptions.push("stack overflow / allocation failure would abort the check (exit code != 0,1), never pass silently".into());
     let mut tot = Acc::default();
@@ -212,8 +212,8 @@ pub fn run() -> i32 {
         tot.merge(f1d);
     }
     // ---- family 1b: cursor arithmetic (length-changing, set and variable elements in multi-element substitutions)
-    let cin = ["V:[+long]", "a:[-long]", "{p,a}", "C", "V", "C=1", "[+long]"];
-    let cout = ["[-long]", "[+long]", "{t,i}", "i", "i:[+long]", "1", "[+voice]", "[+overlong]"];
+    let cin = ["V:[+long]", "a:[-long]", "{p,a}", "C", "V", "C=1", "[+long]", "V:[+long]=1", "V=1"];
+    let cout = ["[-long]", "[+long]", "{t,i}", "i", "i:[+long]", "1", "[+voice]", "[+overlong]", "1:[-long]", "1:[+long]", "1:[-overlong]"];
     let cwords = ["taːp", "paːt.a", "taːːpat", "aːp", "tapː", "paː.pa", "ˈtaːp.ta5", "ppaːt", "ta.pa", "at"];
     let kk = if thorough { 3 } else { 2 };
     let mut crules: Vec<String> = vec![];
@@ -328,6 +328,23 @@ pub fn run() -> i32 {
     r.boxes.push(json!({"box": "7 ellipsis inputs with a tail / syllables written in place of segments / zero-width optionals with counts", "rules": r7.len(), "calls": f7.evals, "ok": f7.ok, "err": f7.err, "crash_classes": f7.crashes.len()}));
     r.guard(f7.ok > 5_000, "family 7: more than 5000 calls returned Ok");
     tot.merge(f7);
+    // ---- family 8: condensed rules with every combination of list lengths (balanced or not): inputs, outputs, context environments, exception
+    // environments of 1..4 (0..4) entries each, as substitution and as deletion; an unbalanced rule is an error value, never a crash
+    let mut f8 = Acc::default();
+    let mut r8: Vec<String> = vec![];
+    let (ins8, outs8, ctx8, exc8) = (["p", "t", "k", "q"], ["b", "d", "ɡ", "x"], ["_a", "_i", "a_", "_,u"], ["_p", "_#", "t_", "_,k"]);
+    for ni in 1..=4 { for no in 1..=4 { for nc in 0..=4 { for ne in 0..=4 {
+        let mut t = format!("{} > {}", ins8[..ni].join(", "), outs8[..no].join(", "));
+        if nc > 0 { t += &format!(" / {}", ctx8[..nc].join(", ")); }
+        if ne > 0 { t += &format!(" | {}", exc8[..ne].join(", ")); }
+        r8.push(t);
+        if no == 1 { let mut d = format!("{} > *", ins8[..ni].join(", ")); if nc > 0 { d += &format!(" / {}", ctx8[..nc].join(", ")); } if ne > 0 { d += &format!(" // {}", exc8[..ne].join(", ")); } r8.push(d); }
+    } } } }
+    let w8 = ["pa.ti.ku", "ta", "ap.ta", "qa.pa", "a"];
+    par_fold(r8.len(), 32, Acc::default, |i, a| rule_case(&r8[i], &w8, "condensed-lengths", a), |a| f8.merge(a));
+    r.boxes.push(json!({"box": "8 condensed rules, all list-length combinations", "rules": r8.len(), "calls": f8.evals, "ok": f8.ok, "err": f8.err, "crash_classes": f8.crashes.len()}));
+    r.guard(f8.ok > 500 && f8.err > 200, "family 8: balanced rules return Ok, unbalanced ones Err");
+    tot.merge(f8);
     // ---- family 4: numeric literals
     let nums = ["0", "1", "00", "007", "4294967296", "18446744073709551616", "99999999999999999999", "65536", "99999"];
     let mut f4 = Acc::default();
